@@ -2,11 +2,13 @@
 
 The ports `p0 … pk` of one process are wired to the same variable.  The update of the process names a
 value for each of them; the engine carries them together (`_multi_update`) and the node applies each of
-them, in topology order — whatever the value is: `0`, `False`, `''`, `[]` are updates like any other.
-With the `set` updater the node holds the value handed in through the last port and the process is shown
-it at its next call; a recording updater (the node keeps the list of what it was handed) shows every one.
+them — whatever the value is: `0`, `False`, `''`, `0.0` are updates like any other.  With the `set`
+updater the node then holds one of the values handed in (the same falsy value through every port: that
+value) and the process is shown it at its next call; a recording updater (the node keeps the list of what
+it was handed) shows every one; an accumulating one their sum.  (C06 does not fix the order in which the
+ports' updates are applied, so the oracle does not depend on it.)
 
-Oracle: after each tick the node holds what applying every port's value in topology order gives."""
+Oracle: after each tick the node holds what applying every port's value, in some order, gives."""
 import itertools
 
 _ids = itertools.count()
@@ -21,14 +23,19 @@ def gen_case(rng):
         if how == 'accumulate':
             return rng.choice([0, 0, 3, -2, 7])
         return rng.choice(FALSY) if rng.random() < 0.5 else rng.choice(TRUTHY)
+    def tick():
+        if how == 'set' and rng.random() < 0.6:
+            return [val()] * n                       # the same value through every port
+        return [val() for _ in range(n)]
     return {'kind': 'falsymulti', 'n': n, 'how': how, 'depth': rng.choice([0, 1]),
-            'ticks': [[val() for _ in range(n)] for _ in range(rng.choice([2, 3]))],
+            'ticks': [tick() for _ in range(rng.choice([2, 3]))],
             'other': rng.random() < 0.5}
 
 
 def corpus():
     return [
-        {'kind': 'falsymulti', 'n': 2, 'how': 'set', 'depth': 0, 'ticks': [[5, 0], [0, 7], ['x', '']], 'other': False},
+        {'kind': 'falsymulti', 'n': 2, 'how': 'set', 'depth': 0, 'ticks': [[5, 5], [0, 0], ['x', 'y'], ['', '']],
+         'other': False},
         {'kind': 'falsymulti', 'n': 3, 'how': 'record', 'depth': 1, 'ticks': [[0, 5, False], ['', 0, 0]], 'other': True},
         {'kind': 'falsymulti', 'n': 2, 'how': 'accumulate', 'depth': 0, 'ticks': [[0, 3], [4, 0]], 'other': False},
     ]
@@ -44,20 +51,33 @@ def _enc(v):
     return [type(v).__name__, v]
 
 
-def reference(case):
+def _key(v):
+    return repr(v)
+
+
+def accepts(case, values):
+    """does the sequence of node values (one per tick) follow from applying, at every tick, every port's value in
+    some order?"""
     how = case['how']
     cur = [] if how == 'record' else (0 if how == 'accumulate' else 'init')
-    out = []
-    for vals in case['ticks']:
-        for v in vals:
-            if how == 'set':
-                cur = v
-            elif how == 'record':
-                cur = cur + [v]
-            else:
-                cur = cur + v
-        out.append(_enc(cur))
-    return out
+    for vals, got in zip(case['ticks'], values):
+        if how == 'set':
+            if got not in [_enc(v) for v in vals]:
+                return False
+        elif how == 'record':
+            if not isinstance(got, list) or got[:len(cur)] != cur or \
+                    sorted(map(_key, got[len(cur):])) != sorted(_key(_enc(v)) for v in vals):
+                return False
+        else:
+            if got != _enc(dec_sum(cur, vals)):
+                return False
+        cur = got if how != 'accumulate' else dec_sum(cur, vals)
+    return len(values) == len(case['ticks'])
+
+
+def dec_sum(cur, vals):
+    base = cur[1] if isinstance(cur, list) else cur
+    return base + sum(vals)
 
 
 def run_impl(case):
@@ -135,14 +155,14 @@ def oracle(case, impl):
         return []
     if impl.get('raised'):
         return [f'multi-raised: {impl["raised"]}']
-    want = reference(case)
     fails = []
-    if impl['values'] != want:
+    if not accepts(case, impl['values']):
         fails.append(f'multi-falsy: the node shared by {case["n"]} ports ({case["how"]}) holds {impl["values"]} after '
-                     f'the ticks writing {case["ticks"]}; every value applied in topology order gives {want}')
-    shown = [[w] * case['n'] for w in want]
+                     f'the ticks writing {case["ticks"]}: not what applying every one of the values gives')
+    shown = [[w] * case['n'] for w in impl['values']]
     if impl['shown'][:len(shown)] != shown:
-        fails.append(f'multi-shown: the process is shown {impl["shown"]} through its ports, the node held {want}')
+        fails.append(f'multi-shown: the process is shown {impl["shown"]} through its ports, the node held '
+                     f'{impl["values"]}')
     if case['other'] and impl.get('elsewhere') != 1 + len(case['ticks']) + 1:
         fails.append(f'multi-frame: an unrelated variable holds {impl.get("elsewhere")}')
     return fails
